@@ -29,11 +29,21 @@ ALL_MECHS = [K.CKM_AES_ECB, K.CKM_AES_CBC, K.CKM_AES_CBC_PAD, K.CKM_AES_CTR, K.C
 
 def u64(v): return int(v & 0xFFFFFFFFFFFFFFFF).to_bytes(8, "little")
 
+# mechanisms whose parameter is a structure that contains pointers (CK_KEY_DERIVATION_STRING_DATA, CK_*_CBC_ENCRYPT_DATA_PARAMS, CK_ECDH1_DERIVE_PARAMS,
+# CK_RSA_PKCS_OAEP_PARAMS, CK_GCM_PARAMS): these get well-formed structures with hostile LENGTHS from the other branches of rand_param
+PTR_PARAM_MECHS = set(getattr(K, n) for n in ("CKM_CONCATENATE_BASE_AND_DATA", "CKM_CONCATENATE_DATA_AND_BASE", "CKM_DES_ECB_ENCRYPT_DATA", "CKM_DES_CBC_ENCRYPT_DATA", "CKM_DES3_ECB_ENCRYPT_DATA",
+                      "CKM_DES3_CBC_ENCRYPT_DATA", "CKM_AES_ECB_ENCRYPT_DATA", "CKM_AES_CBC_ENCRYPT_DATA", "CKM_ECDH1_DERIVE", "CKM_ECDH1_COFACTOR_DERIVE", "CKM_RSA_PKCS_OAEP", "CKM_AES_GCM",
+                      "CKM_XOR_BASE_AND_DATA") if hasattr(K, n))
+
 class GW(StoreW):
     def rand_param(self, m):
         r = self.r; x = r.random()
         if x < 0.25: return mechs.simple(m)
-        if x < 0.4: return mechs.simple(m, objs.rnd(r, r.choice([1, 7, 8, 12, 15, 16, 17, 24, 32, 48])))
+        if x < 0.4:
+            # raw bytes as the parameter. For mechanisms whose parameter is a STRUCT WITH POINTERS the sizes of those structs are left out: random bytes of
+            # exactly that size would hand the library a wild pointer, which is outside the property's precondition (all pointers reference valid memory)
+            sizes = [1, 7, 8, 12, 15, 17, 23, 33, 47] if m in PTR_PARAM_MECHS else [1, 7, 8, 12, 15, 16, 17, 24, 32, 48]
+            return mechs.simple(m, objs.rnd(r, r.choice(sizes)))
         if x < 0.5: return mechs.gcm(objs.rnd(r, r.choice([0, 1, 12, 16, 300])), objs.rnd(r, r.choice([0, 5, 64])), r.choice([0, 8, 96, 128, 129, 1 << 20])) if m == K.CKM_AES_GCM or r.random() < 0.3 else mechs.ctr(r.choice([0, 1, 64, 128, 129, 1 << 30]), objs.rnd(r, 16)) | {"m": m}
         if x < 0.6:
             d = mechs.oaep(r.choice([K.CKM_SHA_1, K.CKM_SHA256, 0, 0x999]), r.choice([K.CKG_MGF1_SHA1, K.CKG_MGF1_SHA256, 0, 77])); d["m"] = m
@@ -50,7 +60,7 @@ class GW(StoreW):
             return d
         if x < 0.94:
             d = mechs.aes_cbc_encrypt_data(objs.rnd(r, 16), objs.rnd(r, r.choice([0, 1, 16, 31, 32]))); d["m"] = m; return d
-        d = mechs.simple(m, objs.rnd(r, 40)); d["plen"] = r.choice([0, 1, 8, 39]); return d
+        d = mechs.simple(m, objs.rnd(r, 41 if m in PTR_PARAM_MECHS else 40)); d["plen"] = r.choice([0, 1, 8, 39]); return d
 
     def handles(self, pid, kind):
         r = self.r; P = self.P(pid)
